@@ -2,7 +2,7 @@
 matching, evidence and replay files, verdict.  Python stdlib only."""
 import concurrent.futures, fnmatch, hashlib, json, os, re, shutil, signal, struct, subprocess, sys, tempfile, time
 
-from build import VERIF, BUILD, SRC, NPROC
+from build import VERIF, BUILD, SRC, NPROC, OUT
 
 DEFAULT_SEED = 12648430
 
@@ -174,7 +174,7 @@ class Ctx:
         os.makedirs(BUILD, exist_ok=True)
         # stale witnesses of an earlier run with the same (property, tier, seed) would be confusing
         import glob
-        for old in glob.glob(os.path.join(VERIF, "replays", "%s-%s-%d-*.json" % (prop, tier, seed))):
+        for old in glob.glob(os.path.join(OUT, "replays", "%s-%s-%d-*.json" % (prop, tier, seed))):
             try:
                 os.unlink(old)
             except OSError:
@@ -243,7 +243,7 @@ class Ctx:
             self._viol_seen[key]["count"] += 1
             return
         self.replay_n += 1
-        rp = os.path.join(VERIF, "replays", "%s-%s-%d-%d.json" % (self.prop, self.tier, self.seed, self.replay_n))
+        rp = os.path.join(OUT, "replays", "%s-%s-%d-%d.json" % (self.prop, self.tier, self.seed, self.replay_n))
         rec = {"property": self.prop, "key": key, "detail": detail, "seed": self.seed, "tier": self.tier,
                "replay": replay or {}, "count": 1}
         os.makedirs(os.path.dirname(rp), exist_ok=True)
@@ -468,11 +468,11 @@ class Ctx:
             "wall_s": round(wall, 2),
             "violations": len(self.violations),
         }
-        os.makedirs(os.path.join(VERIF, "evidence"), exist_ok=True)
-        tmp = os.path.join(VERIF, "evidence", ".%s.json.tmp" % self.prop)
+        os.makedirs(os.path.join(OUT, "evidence"), exist_ok=True)
+        tmp = os.path.join(OUT, "evidence", ".%s.json.tmp" % self.prop)
         with open(tmp, "w") as fh:
             json.dump(ev, fh, indent=1, sort_keys=True)
-        os.replace(tmp, os.path.join(VERIF, "evidence", "%s.json" % self.prop))
+        os.replace(tmp, os.path.join(OUT, "evidence", "%s.json" % self.prop))
         shutil.rmtree(self.scratch, ignore_errors=True)
         for k, what in sorted(self.known_hits.items()):
             print("KNOWN-FINDING: property=%s %s [%s]" % (self.prop, what, k))
